@@ -898,6 +898,9 @@ func headAsksRule(p *core.Prog, r *core.Report, rule string) {
 				if o.Kind == core.OCall && o.Call != nil && o.Call.Call.IsInvoke() && (o.Call.Call.Method.Name() == name || (name == "ManifestHead" && o.Call.Call.Method.Name() == "ManifestGet")) {
 					continue // (a platform lookup in an index fetches the index from the same scheme)
 				}
+				if o.Val != nil && core.IsNilConst(o.Val) {
+					continue // `var rdr blob.Reader; if err == nil { rdr = answer }`: nothing is not an answer
+				}
 				ok, bad = false, p.Pos(ret.Pos())
 			}
 		}
